@@ -34,7 +34,7 @@ def load_tables(mods=None):
 
 def mk_step(enc, arch=6, sec=True, virt=False, vmsa=False, mode=None, it='any', e_sym=False, sym_sys=None,
             set_sys=None, tables=None, expect_class=True, extra_assume=None, fix=None, failed_cond=False,
-            havoc_scratch=False, foreign_config=None, reg_values=None, prehistory=None):
+            havoc_scratch=False, foreign_config=None, reg_values=None, prehistory=None, mpu=None, mpu_rsize=None):
     """unit: all fields of the encoding, all registers/flags/mode symbolic"""
     cache = {}
     from vf import known
@@ -45,10 +45,30 @@ def mk_step(enc, arch=6, sec=True, virt=False, vmsa=False, mode=None, it='any', 
         E = ISA[enc]
         cfg, ov = MC.std_cfg(arch=arch, sec=sec, virt=virt, vmsa=vmsa)
         box = cache if env.symbolic else {}
+        ssym, sset = dict(sym_sys or {}), dict(set_sys or {})
+        if mpu:
+            # PMSA with the MPU enabled: `mpu` regions with symbolic enable / size / subregion-disable / base / AP,
+            # MPUIR.DRegion = mpu, SCTLR.M = 1, SCTLR.BR symbolic; the oracle's memory helpers then apply the
+            # protection checks (spec/isa.py _protection) with the privilege of the access
+            from vf import c14
+            rs, rset = c14.region_sym(mpu, rsize=mpu_rsize)
+            ssym.update(rs)
+            sset.update(rset)
+            sset['mpuir'] = mpu << 8
+            sset['sctlr'] = sset.get('sctlr', 0x40050078) | 1
+            ssym['sctlr'] = ssym.get('sctlr', 0) | (1 << 17)
+            cfg = dict(cfg, mpu_k=mpu)
 
         def build():
             m = MC.Machine(env, cfg, ov, thumb=E.thumb, mode=mode, it=(it if E.thumb else 'none'), e_sym=e_sym,
-                           sym_sys=sym_sys or {}, set_sys=set_sys or {}, reg_values=reg_values)
+                           sym_sys=ssym, set_sys=sset, reg_values=reg_values)
+            if mpu:
+                # the instruction fetch itself is a (data-read) access of the current privilege: assume it is allowed
+                from spec import pmsa
+                pc0 = m.pre.R['PC']
+                for a in ([pc0] if E.length == 16 or not E.thumb else [pc0, pc0 + 2]):
+                    o = pmsa.translate_p(m.pre, a, m.pre.privileged(), z3.BoolVal(False), mpu)
+                    env.assume(z3.And(z3.Not(o['fault']), z3.Not(o['unpred'])))
             fixed = fix or {}
 
             def mkvar(name, w):
